@@ -367,6 +367,11 @@ func (s *C13) sequential(c *scen.Ctx) {
 			}
 		}
 	}
+	if simrt.Draw(3, "c13.cursor") == 2 {
+		// a long-lived selector: 2^32 selections later the rotation is still a rotation
+		rr.VerifSetCursor(1<<32 - uint64(1+simrt.Draw(30, "c13.cursoroff")))
+		c.Count("probe.cursor_near_2^32", 1)
+	}
 	allStatic, allPos := true, true
 	var wmax, wmin int32 = -1 << 31, 1<<31 - 1
 	for _, e := range set {
